@@ -21,6 +21,14 @@ MODES = {
     ("U6_tags", "inject_tags"): ["inject"],
     ("U6_tags", None): ["inject", "replace_le"],
     ("U3_directive", None): ["detect", "add_line"],
+    # whole-program stand-in (real Txtpp::run on generated projects vs. the reference interpreter / metamorphic runs)
+    ("U1_line_ending", None): ["system"],
+    ("U9_paths", None): ["system"],
+    ("U11_ioctx", None): ["system"],
+    ("U12_shell", None): ["system"],
+    ("U13_pp_exec", None): ["system"],
+    ("U14_pp_loop", None): ["system"],
+    ("U15_coordinator", None): ["system"],
 }
 
 _built = {}
@@ -38,7 +46,8 @@ def build(repo, out):
         bdir = os.path.join(out, "replay_build")
         tdir = os.path.join(out, "replay_target")
         os.makedirs(os.path.join(bdir, "src"), exist_ok=True)
-        shutil.copy(os.path.join(VERIF, "replay", "src", "main.rs"), os.path.join(bdir, "src", "main.rs"))
+        for f in os.listdir(os.path.join(VERIF, "replay", "src")):
+            shutil.copy(os.path.join(VERIF, "replay", "src", f), os.path.join(bdir, "src", f))
         # a scratch copy made by tools/try_patch.sh holds src/ only: complete it from /repo
         for f in ("Cargo.toml", "Cargo.lock"):
             if not os.path.exists(os.path.join(repo, f)):
@@ -57,10 +66,59 @@ def build(repo, out):
     return exe
 
 
+def tree_hash(repo):
+    import hashlib
+    h = hashlib.sha256()
+    roots = [os.path.join(repo, "src"), os.path.join(VERIF, "replay", "src")]
+    files = [os.path.join(repo, "Cargo.toml")]
+    for r in roots:
+        for dp, dn, fn in os.walk(r):
+            dn.sort()
+            files += [os.path.join(dp, f) for f in sorted(fn)]
+    for f in files:
+        if os.path.exists(f):
+            h.update(f.encode() + b"\0" + open(f, "rb").read() + b"\0")
+    return h.hexdigest()[:20]
+
+
+def failures_for(d, prop):
+    """failures of a mode run that speak about `prop` (modes without per-failure property tags speak about all)"""
+    return [f for f in d["failures"] if "props" not in f or prop in f["props"]]
+
+
+_results = {}
+
+
 def run_mode(mode, repo, out):
+    """the result is a function of the tree under check and of the harness sources: it is computed once per content
+    hash (in-process and, for the 30 s system mode, on disk under <out>/modecache), and marked cached when reused"""
+    key = (mode, tree_hash(repo))
+    if key in _results:
+        return dict(_results[key], cached=True)
+    cpath = os.path.join(out, "modecache", f"{mode}-{key[1]}.json")
+    if mode == "system" and os.path.exists(cpath) and time.time() - os.path.getmtime(cpath) < 3600 \
+            and not os.environ.get("VERIF_NO_CACHE"):
+        try:
+            d = json.load(open(cpath))
+            _results[key] = d
+            return dict(d, cached=True)
+        except Exception:
+            pass
+    d = _run_mode(mode, repo, out)
+    _results[key] = d
+    if mode == "system":
+        os.makedirs(os.path.dirname(cpath), exist_ok=True)
+        json.dump(d, open(cpath, "w"))
+    return d
+
+
+def _run_mode(mode, repo, out):
     exe = build(repo, out)
     t0 = time.time()
-    p = subprocess.run([exe, mode], stdout=subprocess.PIPE, stderr=subprocess.PIPE, timeout=1800)
+    argv = [exe, mode]
+    if mode == "system":
+        argv.append(os.path.join(out, "syswork.%d" % os.getpid()))
+    p = subprocess.run(argv, stdout=subprocess.PIPE, stderr=subprocess.PIPE, timeout=1800)
     try:
         d = json.loads(p.stdout.decode())
     except Exception:
@@ -78,18 +136,21 @@ def search(prop, failure, repo, out=None):
     out = out or os.path.join(VERIF, "replay", "out")
     for mode in modes_for(failure.get("unit"), failure.get("fn")):
         d = run_mode(mode, repo, out)
-        if d["failures"]:
-            return {"mode": mode, "bound": d["bound"], "checked": d["checked"], "failing_input": d["failures"][0]}
+        mine = failures_for(d, prop)
+        if mine:
+            return {"mode": mode, "bound": d["bound"], "checked": d["checked"], "failing_input": mine[0]}
     return None
 
 
 def replay(record, repo):
     """re-run the mode that produced the witness; exit status 1 if the real code still fails on a corpus input"""
     w = record["witness"]
+    os.environ["VERIF_NO_CACHE"] = "1"
     d = run_mode(w["mode"], repo, os.path.join(VERIF, "replay", "out"))
-    if d["failures"]:
+    mine = failures_for(d, record.get("property", ""))
+    if mine:
         print("real code still violates the contract; first failing input:")
-        print(json.dumps(d["failures"][0], indent=1))
+        print(json.dumps(mine[0], indent=1))
         return 1
     print(f"no failing input any more ({d['checked']} cases, bound: {d['bound']})")
     return 0
